@@ -20,7 +20,9 @@ def mergeDataset (same : Bool) (blank : List Node) (dest src : List (List Node))
     Int × List (List Node) :=
   if !same then (-1, dest)
   else
-    let nb1 : Int := if nb > src.length then src.length else nb
+    let nb0 : Int := if nb > src.length then src.length else nb
+    -- no more than what the source holds from `sp` on
+    let nb1 : Int := if sp > 0 ∧ nb0 > (src.length : Int) - sp then (src.length : Int) - sp else nb0
     let dest1 := if dp ≥ dest.length then dest ++ List.replicate (dp - dest.length + 1) blank else dest
     (if nb1 < 0 then 0 else nb1, mergeCore dest1 src dest1.length dp sp nb1.toNat)
 
